@@ -559,6 +559,12 @@ func TestC17(t *testing.T) {
 			class = names[r.Intn(len(names))]
 			inject = bad[class]
 		}
+		if k%4 == 2 {
+			// the prototype is written as a typed nil pointer, (*T)(nil): the id and the layout come from the type alone, so
+			// it is a message of the dialect like any other - judged, and found, like any other
+			inject = reflect.Zero(reflect.TypeOf(inject)).Interface().(message.Message)
+			rep.Count("typed_nil_prototypes_injected", 1)
+		}
 		pos := r.Intn(len(msgs) + 1)
 		withBad := append(append(append([]message.Message{}, msgs[:pos]...), inject), msgs[pos:]...)
 		rep.Eval(1)
@@ -639,6 +645,25 @@ func TestC17(t *testing.T) {
 					rep.Violation("dialect=user what=init", "a valid extended dialect was rejected: "+err.Error(), nil)
 				} else if m := rw.GetMessage(60100); m == nil {
 					rep.Violation("dialect=user what=lookup:reinit", "a message appended to a Dialect value is not found after re-initialisation", nil)
+				}
+			}
+		}
+	}
+	// typed-nil prototypes in a valid dialect: found by their ids, usable
+	{
+		d := &dialect.Dialect{Version: 3, Messages: []message.Message{&MessageVfId254{}, (*MessageFineDup)(nil), (*MessageVfId255)(nil)}}
+		rw := &dialect.ReadWriter{Dialect: d}
+		err, p := safeInit(rw)
+		rep.Eval(1)
+		rep.Count("typed_nil_prototype_dialects", 1)
+		if p != nil {
+			rep.Observe(fmt.Sprintf("c17: a dialect that lists a prototype as a typed nil pointer makes Initialize panic: %v", p))
+		} else if err != nil {
+			rep.Observe("c17: a dialect that lists a prototype as a typed nil pointer is refused: " + err.Error())
+		} else {
+			for _, id := range []uint32{60100, 255} {
+				if m := rw.GetMessage(id); m == nil {
+					rep.Violation("dialect=user what=lookup", fmt.Sprintf("GetMessage(%d) returns nothing although the dialect (accepted by Initialize) lists a message with that id as a typed nil prototype", id), nil)
 				}
 			}
 		}
